@@ -1,0 +1,18 @@
+//go:build !verif
+
+// Package verifhook contains instrumentation points for the out-of-tree
+// deterministic simulation harness. Without the "verif" build tag every
+// function here is an empty, inlinable no-op, so shipped behaviour is unchanged.
+package verifhook
+
+// Yield marks a point at which the simulation harness may park the calling
+// goroutine. No-op without the "verif" build tag.
+func Yield(point string, ctx ...interface{}) {}
+
+// Skip lets the simulation harness ask the caller to skip a step that the
+// code is allowed to skip anyway. Always false without the "verif" build tag.
+func Skip(point string, ctx ...interface{}) bool { return false }
+
+// Fault lets the simulation harness inject an I/O error. Always nil without
+// the "verif" build tag.
+func Fault(point string, ctx ...interface{}) error { return nil }
